@@ -5,6 +5,7 @@ import ast
 import re
 
 from vk import astx, numkind, facts, elect
+from vk.report import shape_rule
 from vk.algebra import Normalizer, bool_key, literals, spec_rat, spec_guard, NotClosedForm, equivalent
 from vk.loader import AnalysisError
 
@@ -45,6 +46,7 @@ def r1_exact(ctx):
               repr(vec), "the analysis no longer treats score-vector entries as possibly-int; exactness check would be vacuous")
 
 
+@shape_rule
 def r2_allocation(ctx):
     prog = ctx.prog
     f = prog.find_func("score_profile_from_rankings")
@@ -245,25 +247,30 @@ def r5_grouping_direction(ctx):
         c = sorts[0]
         kw = {k.arg: k.value for k in c.keywords}
         d = astx.u(c)
-        grp = astx.u(c.args[0]).replace(".items()", "") if c.args else ""
-        gd = astx.unique_def(f.node, grp)
-        keyed_by_score = isinstance(gd, ast.DictComp) and astx.u(gd.generators[0].iter) == f"{sd}.values()" and astx.is_name(gd.key, gd.generators[0].target.id)
-        fill = [n for n in astx.walk_own(f.node) if isinstance(n, ast.Call) and astx.call_name(n) == "append" and astx.u(n.func.value).startswith(grp + "[")]
-        okfill = False
-        for a in fill:
-            lp = astx.enclosing(a, astx.parents(f.node), ast.For)
-            if lp is not None and astx.u(lp.iter) == f"{sd}.items()" and isinstance(lp.target, ast.Tuple):
-                cand, score = [astx.u(x) for x in lp.target.elts]
-                okfill = astx.u(a.func.value) == f"{grp}[{score}]" and astx.u(a.args[0]) == cand
+        it0 = c.args[0] if c.args else None
+        if isinstance(it0, ast.Name):
+            it0 = astx.unique_def(f.node, it0.id)
+        grp = astx.u(it0).replace(".items()", "") if it0 is not None else ""
+        from vk import accum
+        gs = [g for g in accum.groupings(f.node) if g.dict_name == grp]
+        keyed_by_score = okfill = False
+        if len(gs) == 1 and astx.u(gs[0].loop.iter) == f"{sd}.items()" and isinstance(gs[0].loop.target, ast.Tuple) and len(gs[0].loop.target.elts) == 2:
+            cand, score = [astx.u(x) for x in gs[0].loop.target.elts]
+            keyed_by_score = gs[0].key == score
+            okfill = gs[0].member == cand
         key = kw.get("key")
-        okkey = isinstance(key, ast.Lambda) and astx.u(key.body) == f"{key.args.args[0].arg}[0]"
+        okkey = key is not None and accum.is_first_component_key(key)
         okrev = astx.is_name(kw.get("reverse"), flag)
-        good = c.args and astx.u(c.args[0]) == f"{grp}.items()" and keyed_by_score and okfill and okkey and okrev
+        good = it0 is not None and astx.u(it0) == f"{grp}.items()" and keyed_by_score and okfill and okkey and okrev
         d = f"sorted({grp}.items(), key=score only: {okkey}, reverse={astx.u(kw.get('reverse')) if kw.get('reverse') is not None else None}); grouped by equal score: {keyed_by_score and okfill}"
     ctx.check(bool(good), f, sorts[0] if sorts else f.node, "groups of equal score, sorted by score only, reverse = sort_high_low", d,
               f"ranking construction is `{d}`")
     # each group becomes one frozenset in that order
     comps = [n for n in astx.walk_own(f.node) if isinstance(n, astx.LCOMP) and sorts and any(x is sorts[0] for x in ast.walk(n))]
+    if not comps and sorts:
+        st_ = astx.stmt_of(sorts[0], astx.parents(f.node))
+        if isinstance(st_, ast.Assign) and isinstance(st_.targets[0], ast.Name) and st_.value is sorts[0] and astx.unique_def(f.node, st_.targets[0].id) is sorts[0]:
+            comps = [n for n in astx.walk_own(f.node) if isinstance(n, astx.LCOMP) and astx.is_name(n.generators[0].iter, st_.targets[0].id)]
     good = False
     if comps:
         g = comps[0].generators[0]
@@ -282,6 +289,7 @@ def r5_grouping_direction(ctx):
                   f"{cls.name} passes sort_high_low={astx.u(e) if e is not None else status}; every documented rule ranks high to low")
 
 
+@shape_rule
 def r6_top_m(ctx):
     prog = ctx.prog
     sel = prog.find_func("elect_cands_from_set_ranking")
@@ -380,7 +388,8 @@ def r7_validate_vector(ctx):
             return
         idx = next((k for k, v in role.items() if v == "index"), None)
         ia = (lambda a, idx=idx: a == idx) if idx else (lambda a: False)
-        N = Normalizer(f.node, inline=False, int_atoms=ia)
+        # single-assignment temporaries (prev = v[i - 1]) are read through; the loop's own variables stay symbols
+        N = Normalizer(f.node, inline=True, int_atoms=ia, no_inline=list(role))
         raises = [(r, literals(N.conj(astx.path_condition(f.node, r, pm)))) for r in astx.raises_in(f.node) if astx.enclosing(r, pm, ast.For) is lp]
         all_raises += raises
         for r, lits in raises:
